@@ -160,6 +160,16 @@ def run(ctx: Ctx) -> int:
 	tables = [json.loads(line) for line in res.lines('TABLE ')]
 	for i, tab in enumerate(tables[:: 3 if quick else 1]):
 		jobs.append((f'table:{i}', {'vm_tab': program_of_table(tab['rows'])}, 'vm_tab'))
+	# what a module is made of: every non-empty choice of declaration kinds (a module of constants, a module that only imports, ...)
+	comps = [json.loads(line) for line in res.lines('COMPOSITION ')]
+	if len(comps) != 31:
+		raise Machinery(f'SymExport emitted {len(comps)} module compositions, expected 31')
+	piece = {'class': 'class K0:\n\tn: int\n\tdef __init__(self, n: int) -> None:\n\t\tself.n = n\n\n', 'function': 'def f0(a: int) -> list[int]:\n\treturn [a]\n\n',
+		'typevar': "T0 = TypeVar('T0')\n", 'variable': "v0: dict[str, int] = {'a': 1}\nv1 = 2\n", 'import': ''}
+	for c in comps:
+		kinds = sorted(c['kinds'])
+		head = ('from typing import TypeVar\n' if 'typevar' in kinds else '') + ('from vm_lib import K, mk, table\n' if 'import' in kinds else '') + '\n'
+		jobs.append((f'composition:{"+".join(kinds)}', {'vm_lib': lib, 'vm_comp': head + ''.join(piece[k] for k in kinds)}, 'vm_comp'))
 	from harness import real_modules
 	real = real_modules.QUICK if quick else real_modules.LOAD_OK
 	for m in real:
